@@ -296,6 +296,8 @@ class ReservedResources():
             will be set to have no reserve resources.
         '''
         assert_is_instance(reserved_resources, ReservedResources)
+        if reserved_resources is self:
+            return  # Nothing to merge.
         for resource_name, amount in reserved_resources._reserved_resources.items():
             try:
                 self._reserved_resources[resource_name] += amount
